@@ -1,52 +1,27 @@
 (* drv_c18.ml — C18 model runner.  Case lines (see harness/cmd/afcheck/c18.go):
      temp  <id> <stack> <seed> <dir hex> <pattern hex> <file|dir> <pre> <ncalls>
      ctemp ...   (concurrent goroutines: judged by the Go-side oracle only; no model line)
-   Output: M <id>#<k>  ok:<name hex> | err:<class> | reseeded:ok | reseeded:err:<class> *)
+   The case itself is the Gallina function temp_case (Model/Cases1718.v); this file parses and prints.
+   Output: M <id>#<k>  ok:<name hex> | err:<class> | reseeded:ok | reseeded:err:<class> ;  D <id> <digest> *)
 open Model
 open Driver_common
 
-let big_z = z_of_int Fsdriver.big
-let os_tmp = List.map (fun c -> n_of_int (Char.code c)) ['/'; 't'; 'm'; 'p']
-let str_of_string (s : string) : n list = List.init (String.length s) (fun i -> n_of_int (Char.code s.[i]))
-
-let reset_val (seed : int) (j : int) : int =
-  let v = (seed * 31 + (j + 1) * 1000003) mod 4294967296 in if v = 0 then 1 else v
-
-(* digits of candidate number i (1-based) from the generator state [seed] *)
-let candidate (seed : z) (i : int) : n list =
-  let rec go r i = let (r', nm) = next_random r in if i <= 1 then nm else go r' (i - 1) in
-  go seed i
+let parse_pre (pre : string) : temp_pre list =
+  if pre = "-" then [] else
+    List.map (fun it ->
+        if it = "D" then TpMkdir else if it = "F" then TpDirIsFile else if it = "K" then TpKeep
+        else begin
+          let i = nat_of_int (int_of_string (String.sub it 1 (String.length it - 1))) in
+          if it.[0] = 'f' then TpCandFile i else TpCandDir i
+        end) (String.split_on_char ',' pre)
 
 let run_temp toks =
   match toks with
   | [id; stackdesc; seed_s; dir_h; pat_h; kind; pre; ncalls_s] ->
     let k = Fsdriver.parse_stack stackdesc in
-    let seed = int_of_string seed_s and ncalls = int_of_string ncalls_s in
-    let dir = bytes_of_hex dir_h and pat = bytes_of_hex pat_h in
-    let isfile = (kind = "file") in
-    let dir_eff = if dir = [] then os_tmp else dir in
-    let (prefix, suffix) = if isfile then temp_prefix_suffix pat else (pat, []) in
-    let step = ustep k in
-    let u0 = uset_clock k (uinit k) big_z in
-    let u1 =
-      if pre = "-" then u0 else
-        List.fold_left (fun u it ->
-            if it = "D" then fst (step u (MkdirAll (dir, z_of_int 0o755)))
-            else if it = "F" then fst (write_file step u dir (str_of_string "iamfile") (z_of_int 0o644))
-            else if it = "K" then
-              fst (write_file step u (join2 dir_eff (str_of_string "keep.txt")) (str_of_string "keep") (z_of_int 0o644))
-            else begin
-              let i = int_of_string (String.sub it 1 (String.length it - 1)) in
-              let name = join2 dir_eff (prefix @ candidate (z_of_int seed) i @ suffix) in
-              if it.[0] = 'f' then
-                fst (write_file step u name (str_of_string (Printf.sprintf "pre%d" i)) (z_of_int 0o644))
-              else fst (step u (Mkdir (name, z_of_int 0o755)))
-            end) u0 (String.split_on_char ',' pre) in
-    let calls = List.init ncalls (fun _ -> ((isfile, dir), pat)) in
-    let resets = List.init (ncalls + 1) (fun j -> z_of_int (reset_val seed j)) in
-    let seeds = List.init (2 * ncalls + 4) (fun j -> z_of_int (424242421 + 1000 * j)) in
-    let g = { tg_rand = z_of_int seed; tg_seeds = seeds; tg_reseeds = O } in
-    let ((_, _), results) = temp_calls step os_tmp u1 g calls resets in
+    let args f = f k (z_of_int (int_of_string seed_s)) (bytes_of_hex dir_h) (bytes_of_hex pat_h) (kind = "file")
+        (parse_pre pre) (nat_of_int (int_of_string ncalls_s)) in
+    let results = args temp_case in
     List.iteri (fun i ((x, nm), reseeded) ->
         let pre_s = if reseeded then "reseeded:" else "" in
         let s = match x, nm with
@@ -55,7 +30,9 @@ let run_temp toks =
           | TempErr e, _ -> pre_s ^ "err:" ^ Fsdriver.errclass e
           | TempNil, _ -> pre_s ^ "nil"
           | TempPanic, _ -> "panic" in
-        Printf.printf "M %s#%d %s\n" id i s) results
+        Printf.printf "M %s#%d %s\n" id i s) results;
+    if Sys.getenv_opt "VERIF_DIGEST" <> None then
+      Printf.printf "D %s %s\n" id (Fsdriver.n_to_string (args temp_case_digest))
   | _ -> failwith "bad temp line"
 
 let () =
